@@ -183,6 +183,15 @@ AtomicZeroCopy<SlotType, OgreAllocatorType, BUFFER_SIZE> {
 }
 
 
+/// verification hooks: gives the external harness access to the components (to name their shared cells)
+#[cfg(feature = "verif")]
+impl<SlotType:          Debug,
+     OgreAllocatorType: BoundedOgreAllocator<SlotType>,
+     const BUFFER_SIZE: usize>
+AtomicZeroCopy<SlotType, OgreAllocatorType, BUFFER_SIZE> {
+    pub fn verif_parts(&self) -> (&OgreAllocatorType, &AtomicMove<u32, BUFFER_SIZE>) { (&self.allocator, &self.queue) }
+}
+
 #[cfg(any(test,doc))]
 mod tests {
     //! Unit tests for [atomic_zero_copy](super) module
